@@ -149,9 +149,13 @@ def gen_entry(rng):
         rtext, rcoq = ":as " + al, "(Some (IAs %s))" % vlib.coq_text(al)
     else:
         ns = rng.sample(NAMES, rng.choice([0, 1, 2, 3]))
+        if ns and rng.random() < 0.35:
+            # the same macro requested twice in one list (plain and under an alias, or under two aliases)
+            ns = ns + [rng.choice(ns)]
+            rng.shuffle(ns)
         items, citems = [], []
         for n in ns:
-            if rng.random() < 0.4:
+            if rng.random() < 0.4 or n in [x.split(" ")[0] for x in items]:
                 al = rng.choice(ALIASES) + str(len(items))
                 items.append("%s :as %s" % (n, al))
                 citems.append("(%s, Some %s)" % (vlib.coq_text(n), vlib.coq_text(al)))
@@ -162,8 +166,13 @@ def gen_entry(rng):
         rtext, rcoq = "[" + " ".join(items) + "]", "(Some (INames [%s]))" % "; ".join(citems)
     if r.startswith("macros-"):
         rtext = ":macros " + rtext
+    readers = False
+    if r != "none" and rng.random() < 0.25:
+        # the entry also brings a reader macro; the macro part must be unaffected
+        rtext += " :readers [rdr9]" if rng.random() < 0.7 else " :readers *"
+        readers = True
     return {"kind": kind, "parts": parts, "dots": dots, "text": text, "coq": coq, "rest": r, "rtext": rtext,
-            "rcoq": rcoq, "names": names, "form": "(require %s %s)" % (text, rtext)}
+            "rcoq": rcoq, "names": names, "readers": readers, "form": "(require %s %s)" % (text, rtext)}
 
 
 def absolute_name(entry, this):
@@ -208,6 +217,9 @@ def check_compile_require(chk, thorough):
             macros = {simple_mangle(n): (lambda n=n: n) for n in set(e["names"]) | {"extra-one", "_private"}}
             src = types.ModuleType(absn)
             src._hy_macros = dict(macros)
+            src._hy_reader_macros = {"rdr9": (lambda reader, key: 1)}
+            if e["readers"]:
+                chk.count("require-entry:with-readers")
             if rng.random() < 0.3:
                 src._hy_export_macros = ["extra_one"]
             for k in list(sys.modules):
